@@ -627,8 +627,7 @@ class capture(object):
     records whatever any thread, the garbage collector or an import emits meanwhile (ResourceWarning,
     DeprecationWarning, ...), so: only UserWarning is switched to "always" (parse_changelog uses
     warnings.warn(message), i.e. UserWarning), ResourceWarning is ignored, nothing is ever turned into
-    an error, and `parser` keeps only the records whose category is UserWarning and whose origin is a
-    file of the repository under test.  The checks capture warnings only while no TLC job is running
+    an error, and `parser` keeps only the records whose category is UserWarning or a subclass of it.  The checks capture warnings only while no TLC job is running
     (recording happens before the thread pool starts, replay after it was joined)."""
 
     def __enter__(self):
@@ -644,10 +643,11 @@ class capture(object):
 
     @property
     def parser(self):
-        import os
-        repo = os.path.realpath(os.environ.get("VERIF_REPO", "/repo")) + os.sep
-        return [x for x in self._rec if issubclass(x.category, UserWarning)
-                and os.path.realpath(x.filename or "").startswith(repo)]
+        # any UserWarning (or subclass) recorded during the call counts, whatever file it is attributed to: a
+        # warn(..., stacklevel=n) in the library attributes the record to a caller's file (this harness, the
+        # standard library), and a check that looked at the origin missed every warning of such a tree (a benign
+        # change with stacklevel=3 raised a false alarm).  Nothing else in this process emits UserWarning here.
+        return [x for x in self._rec if issubclass(x.category, UserWarning)]
 
 
 def import_repo_modules():
